@@ -1,11 +1,13 @@
 import Woodpile.Driver.Util
 import Woodpile.Driver.ReadN
 import Woodpile.Driver.VTime
+import Woodpile.Driver.Nfs
 
 open Woodpile.Driver
 
 def families : List (String × Family) := [
   ("vtime", VTimeFam.family),
+  ("nfs", NfsFam.family),
   ("readn", ReadNFam.family)
 ]
 
